@@ -8,6 +8,12 @@ schedule is any list of task ids, each entry running that task's next await-free
 `edit_state` body is cut into chunks at its awaits).  Which operations take the store lock is
 read from the source (`GenStateStore.*Locked`).  Theorems quantify over every program (any
 number of tasks), every initial store, every schedule.
+
+Cancellation (`*_under_cancellation`, `*_with_cancel`): a schedule is a list of actions `run t` /
+`cancel t`; `cancel t` is `Task.cancel()` from outside, taking effect in the task's next section —
+before it started, while it is queued on the lock (future cancelled, or lock already handed over),
+or at an await inside its `edit_state` body.  That a cancelled waiter leaves the lock alone is the
+scoping of the lock by `async with`, read from the source (`GenStateStore.*LockScoped`).
 -/
 open StateStore
 
@@ -25,6 +31,16 @@ theorem memBackend_locks (op : COp) : memBackend.locks op = true := by
 theorem sqlBackend_locks (op : COp) : sqlBackend.locks op = true := by
   cases op <;> rfl
 
+/-- the lock is scoped, as found in the source: inside both store classes `self._lock` occurs only
+as `async with self._lock` — no bare `acquire()` / `release()` / `locked()`; so the lock is given
+back by the task that took it, and only by it -/
+theorem C20_source_shape_scoped_lock :
+    GenStateStore.memLockScoped = true ∧ GenStateStore.sqlLockScoped = true := by decide
+
+theorem memBackend_scoped (op : COp) : memBackend.scopedLock op = true := rfl
+
+theorem sqlBackend_scoped (op : COp) : sqlBackend.scopedLock op = true := rfl
+
 /-- in-memory store: for every interleaving that runs all tasks to completion, the final store is
 the result of running the same operations one after the other in some order (each task exactly
 once; an `edit_state` block is one operation) -/
@@ -34,7 +50,8 @@ theorem C20_serialisable_memory (prog : List COp) (m0 : Mem) (sched : List Nat) 
     ∃ order : List Nat, order.Nodup ∧ (∀ t, t ∈ order ↔ t < prog.length) ∧
       s.store = serial memBackend prog m0 order :=
   serialisable_of_inv memBackend prog m0 s
-    (inv_runAll memBackend memBackend_locks mem_editLaw prog m0 sched _ s (inv_init _ _ _) hrun) hdone
+    (inv_execAll memBackend memBackend_locks memBackend_scoped mem_editLaw mem_publishLaw mem_abortLaw prog m0 _ _ s
+      (inv_init _ _ _) (by rw [← runAll_eq_execAll]; exact hrun)) hdone
 
 /-- SQLite store: the same -/
 theorem C20_serialisable_sqlite (prog : List COp) (q0 : Sql) (sched : List Nat) (s : Sys Sql)
@@ -43,7 +60,8 @@ theorem C20_serialisable_sqlite (prog : List COp) (q0 : Sql) (sched : List Nat) 
     ∃ order : List Nat, order.Nodup ∧ (∀ t, t ∈ order ↔ t < prog.length) ∧
       s.store = serial sqlBackend prog q0 order :=
   serialisable_of_inv sqlBackend prog q0 s
-    (inv_runAll sqlBackend sqlBackend_locks sql_editLaw prog q0 sched _ s (inv_init _ _ _) hrun) hdone
+    (inv_execAll sqlBackend sqlBackend_locks sqlBackend_scoped sql_editLaw sql_publishLaw sql_abortLaw prog q0 _ _ s
+      (inv_init _ _ _) (by rw [← runAll_eq_execAll]; exact hrun)) hdone
 
 /-- both stores; the order is a permutation of the task ids -/
 theorem C20_serialisable (prog : List COp) (sched : List Nat) :
@@ -113,8 +131,10 @@ theorem C20_no_write_inside_open_edit (prog : List COp) (e t : Nat) (hne : t ≠
       s'.store = s.store ∧ s'.log = s.log ∧ s'.holder = some e) ∧
     (∀ (s s' : Sys Sql), s.holder = some e → Sys.run sqlBackend prog s t = some s' →
       s'.store = s.store ∧ s'.log = s.log ∧ s'.holder = some e) :=
-  ⟨fun s s' hh h => no_write_inside_open_edit memBackend memBackend_locks prog s s' e t hh hne h,
-   fun s s' hh h => no_write_inside_open_edit sqlBackend sqlBackend_locks prog s s' e t hh hne h⟩
+  ⟨fun s s' hh h => no_write_inside_open_edit_exec memBackend memBackend_locks memBackend_scoped prog s s' e t hh hne
+      (.run t) (Or.inl rfl) h,
+   fun s s' hh h => no_write_inside_open_edit_exec sqlBackend sqlBackend_locks sqlBackend_scoped prog s s' e t hh hne
+      (.run t) (Or.inl rfl) h⟩
 
 /-! ### F18: what happens when `set_state` / `clear` do not take the lock -/
 
@@ -147,3 +167,165 @@ theorem C20_unlocked_set_state_loses_update :
 /-- the same schedule on the repaired store: `set_state` queues behind the block -/
 example : ∃ s, Sys.runAll sqlBackend C20_f18Prog (Sys.init C20_f18Init 2) [0, 1, 0, 1] = some s ∧
     s.allDone = true ∧ s.store.row = some [("x", .int 5)] := ⟨_, rfl, by rfl, by rfl⟩
+
+/-! ### cancellation -/
+
+/-- Serialisability under cancellation, general form.  For every program, initial store and
+schedule of `run` / `cancel` actions after which every task has ended — completed, cancelled
+before it touched the store, or cancelled inside its `edit_state` body — the final store is the
+serial execution, in some order, of exactly the tasks that took effect: the completed ones with
+their operation, and a task cancelled inside its body with the edit it left behind (`effOp`: the
+mutations of its finished chunks in memory, where the body works on the store's own object; the
+empty edit for SQLite, where the body works on a copy that is never saved).  Tasks cancelled
+before they got the lock are not in the order.  Both backends. -/
+theorem C20_serialisable_under_cancellation_general (prog : List COp) (sched : List Act) :
+    (∀ (m0 : Mem) (s : Sys Mem), Sys.execAll memBackend prog (Sys.init m0 prog.length) sched = some s →
+      s.allSettled = true →
+      ∃ order : List Nat, order.Nodup ∧
+        (∀ t, t ∈ order ↔ (s.pcs[t]? = some Pc.done ∨ ∃ kept, s.pcs[t]? = some (Pc.aborted kept))) ∧
+        s.store = serialBy memBackend (effOp prog s.pcs) m0 order) ∧
+    (∀ (q0 : Sql) (s : Sys Sql), Sys.execAll sqlBackend prog (Sys.init q0 prog.length) sched = some s →
+      s.allSettled = true →
+      ∃ order : List Nat, order.Nodup ∧
+        (∀ t, t ∈ order ↔ (s.pcs[t]? = some Pc.done ∨ ∃ kept, s.pcs[t]? = some (Pc.aborted kept))) ∧
+        s.store = serialBy sqlBackend (effOp prog s.pcs) q0 order) := by
+  constructor
+  · intro m0 s hrun hend
+    obtain ⟨order, hnd, hmem, hst⟩ := serialisable_of_inv_settled memBackend prog m0 s
+      (inv_execAll memBackend memBackend_locks memBackend_scoped mem_editLaw mem_publishLaw mem_abortLaw prog m0 _ _ s
+        (inv_init _ _ _) hrun) hend
+    exact ⟨order, hnd, fun t => by rw [hmem t, eff_iff], hst⟩
+  · intro q0 s hrun hend
+    obtain ⟨order, hnd, hmem, hst⟩ := serialisable_of_inv_settled sqlBackend prog q0 s
+      (inv_execAll sqlBackend sqlBackend_locks sqlBackend_scoped sql_editLaw sql_publishLaw sql_abortLaw prog q0 _ _ s
+        (inv_init _ _ _) hrun) hend
+    exact ⟨order, hnd, fun t => by rw [hmem t, eff_iff], hst⟩
+
+/-- what a block that was cancelled inside its body counts with: in memory the mutations that had
+run, for SQLite nothing -/
+theorem C20_aborted_block_effect (ran : List Mut) :
+    memBackend.kept ran = ran ∧ sqlBackend.kept ran = [] := ⟨rfl, rfl⟩
+
+/-- Serialisability under cancellation: if all tasks are done or cancelled (none of them inside an
+open `edit_state` body), the final store is the serial execution, in some order, of exactly the
+tasks that completed — each completed task once, no cancelled task, the program's own operations.
+In particular a completed write is never overwritten by an older block, whatever was cancelled
+around it.  Both backends. -/
+theorem C20_serialisable_under_cancellation (prog : List COp) (sched : List Act) :
+    (∀ (m0 : Mem) (s : Sys Mem), Sys.execAll memBackend prog (Sys.init m0 prog.length) sched = some s →
+      s.allDoneOrCancelled = true →
+      ∃ order : List Nat, order.Nodup ∧ (∀ t, t ∈ order ↔ s.pcs[t]? = some Pc.done) ∧
+        s.store = serial memBackend prog m0 order) ∧
+    (∀ (q0 : Sql) (s : Sys Sql), Sys.execAll sqlBackend prog (Sys.init q0 prog.length) sched = some s →
+      s.allDoneOrCancelled = true →
+      ∃ order : List Nat, order.Nodup ∧ (∀ t, t ∈ order ↔ s.pcs[t]? = some Pc.done) ∧
+        s.store = serial sqlBackend prog q0 order) :=
+  ⟨fun m0 s hrun hend => serialisable_of_inv_completed memBackend prog m0 s
+      (inv_execAll memBackend memBackend_locks memBackend_scoped mem_editLaw mem_publishLaw mem_abortLaw prog m0 _ _ s
+        (inv_init _ _ _) hrun) hend,
+   fun q0 s hrun hend => serialisable_of_inv_completed sqlBackend prog q0 s
+      (inv_execAll sqlBackend sqlBackend_locks sqlBackend_scoped sql_editLaw sql_publishLaw sql_abortLaw prog q0 _ _ s
+        (inv_init _ _ _) hrun) hend⟩
+
+/-- three tasks: an `edit_state` with two awaits, a second `edit_state`, a `set_state` -/
+def C20_cancelProg : List COp :=
+  [.edit [[.incr "x" 1], [.incr "x" 10], [.setKey "y" (.int 1)]], .edit [[.incr "x" 100]], .setState .same [("x", .int 5)]]
+def C20_cancelInit : Sql := (Sql.step (Sql.init [] .dict) (.set "x" (.int 0))).1
+def C20_cancelInitMem : Mem := (Mem.step (Mem.init [] .dict) (.set "x" (.int 0))).1
+
+/-- task 1 queues behind the open block of task 0 and is cancelled while queued (its future is
+cancelled: `waitC true`); task 2 queues behind it; the cancelled waiter leaves the FIFO, the block
+finishes, task 2 runs: `{x: 5}`, the serial order `[0, 2]` -/
+example : ∃ s, Sys.execAll sqlBackend C20_cancelProg (Sys.init C20_cancelInit 3)
+      [.run 0, .run 1, .cancel 1, .run 2, .run 1, .run 0, .run 0, .run 2] = some s ∧
+    s.allDoneOrCancelled = true ∧ s.log = [0, 2] ∧ s.pcs[1]? = some Pc.cancelled ∧
+    s.store.row = some [("x", .int 5)] ∧
+    s.store = serial sqlBackend C20_cancelProg C20_cancelInit [0, 2] := ⟨_, rfl, by rfl, by rfl, by rfl, by rfl, by rfl⟩
+
+/-- the lock had already been handed to the waiter when it is cancelled (`waitC false`,
+`_must_cancel`): it gives way to the next waiter; and a block cancelled inside its body (task 0,
+after its first chunk) keeps `x + 1` in memory -/
+example : ∃ s, Sys.execAll memBackend C20_cancelProg (Sys.init C20_cancelInitMem 3)
+      [.run 0, .run 1, .run 2, .cancel 0, .run 0, .cancel 1, .run 1, .run 2] = some s ∧
+    s.allSettled = true ∧ s.log = [0, 2] ∧
+    s.pcs = [Pc.aborted [.incr "x" 1], Pc.cancelled, Pc.done] ∧
+    s.store.root.data = [("x", .int 5)] ∧
+    s.store = serialBy memBackend (effOp C20_cancelProg s.pcs) C20_cancelInitMem [0, 2] :=
+  ⟨_, rfl, by rfl, by rfl, by rfl, by rfl, by rfl⟩
+
+/-- the same schedule on SQLite: the cancelled block leaves nothing -/
+example : ∃ s, Sys.execAll sqlBackend C20_cancelProg (Sys.init C20_cancelInit 3)
+      [.run 0, .run 1, .run 2, .cancel 0, .run 0, .cancel 1, .run 1, .run 2] = some s ∧
+    s.allSettled = true ∧ s.pcs = [Pc.aborted [], Pc.cancelled, Pc.done] ∧
+    s.store.row = some [("x", .int 5)] := ⟨_, rfl, by rfl, by rfl, by rfl⟩
+
+/-- the mechanism, with cancellation: while an `edit_state` block is open, no action concerning
+another task — one of its sections (also the one in which a cancelled waiter leaves the FIFO), or
+a cancellation request to it — changes the store, completes an operation, or takes the lock away
+from the block -/
+theorem C20_no_write_inside_open_edit_with_cancel (prog : List COp) (e t : Nat) (hne : t ≠ e) (a : Act)
+    (ha : a = .run t ∨ a = .cancel t) :
+    (∀ (s s' : Sys Mem), s.holder = some e → Sys.exec memBackend prog s a = some s' →
+      s'.store = s.store ∧ s'.log = s.log ∧ s'.holder = some e) ∧
+    (∀ (s s' : Sys Sql), s.holder = some e → Sys.exec sqlBackend prog s a = some s' →
+      s'.store = s.store ∧ s'.log = s.log ∧ s'.holder = some e) :=
+  ⟨fun s s' hh h => no_write_inside_open_edit_exec memBackend memBackend_locks memBackend_scoped prog s s' e t hh hne a ha h,
+   fun s s' hh h => no_write_inside_open_edit_exec sqlBackend sqlBackend_locks sqlBackend_scoped prog s s' e t hh hne a ha h⟩
+
+/-- a state with an open block (task 0) and a queued waiter (task 1): cancelling the waiter and
+delivering the cancellation are both enabled, and the block still holds the lock afterwards -/
+example : ∃ s s1 s2, Sys.execAll sqlBackend C20_cancelProg (Sys.init C20_cancelInit 3) [.run 0, .run 1] = some s ∧
+    s.holder = some 0 ∧ Sys.exec sqlBackend C20_cancelProg s (.cancel 1) = some s1 ∧
+    Sys.exec sqlBackend C20_cancelProg s1 (.run 1) = some s2 ∧ s2.holder = some 0 ∧ s2.queue = [] :=
+  ⟨_, _, _, rfl, by rfl, rfl, rfl, by rfl, by rfl⟩
+
+/-! ### what happens when a cancelled waiter gives the lock back -/
+
+/-- both stores with `edit_state` (and SQLite's `set`, which goes through it) written as
+`try: await lock.acquire(); … finally: if lock.locked(): lock.release()`: the exit code also runs
+for a task that was cancelled while queued, and then releases the lock of the open block -/
+def sqlBackendUnscoped : Backend Sql :=
+  { sqlBackend with scopedLock := fun
+      | .edit .. => false
+      | .set .. => false
+      | _ => true }
+
+def memBackendUnscoped : Backend Mem :=
+  { memBackend with scopedLock := fun
+      | .edit .. => false
+      | _ => true }
+
+def hasX5m (m : Mem) : Bool :=
+  match lookup "x" m.root.data with | some (.int 5) => true | _ => false
+
+def C20_leakProg : List COp :=
+  [.edit [[], [.setKey "y" (.int 1)]], .edit [[.incr "x" 100]], .setState .same [("x", .int 5)]]
+
+/-- with such a lock the schedule `edit₀: load · edit₁ queues · cancel 1 · edit₁ leaves (and
+releases) · set_state₂ · edit₀: body, save` ends in `{x: 0, y: 1}` on both stores: the completed
+`set_state(x=5)` is overwritten by the older block, although every serial order of the two
+completed operations keeps it — `C20_serialisable_under_cancellation` is false for those stores -/
+theorem C20_cancelled_waiter_releasing_lock_loses_update :
+    (∃ s, Sys.execAll sqlBackendUnscoped C20_leakProg (Sys.init C20_cancelInit 3)
+        [.run 0, .run 1, .cancel 1, .run 1, .run 2, .run 0] = some s ∧
+      s.allDoneOrCancelled = true ∧ s.pcs = [Pc.done, Pc.cancelled, Pc.done] ∧
+      s.store.row = some [("x", .int 0), ("y", .int 1)] ∧ hasX5 s.store = false ∧
+      hasX5 (serial sqlBackendUnscoped C20_leakProg C20_cancelInit [0, 2]) = true ∧
+      hasX5 (serial sqlBackendUnscoped C20_leakProg C20_cancelInit [2, 0]) = true) ∧
+    (∃ s, Sys.execAll memBackendUnscoped C20_leakProg (Sys.init C20_cancelInitMem 3)
+        [.run 0, .run 1, .cancel 1, .run 1, .run 2, .run 0] = some s ∧
+      s.allDoneOrCancelled = true ∧ s.pcs = [Pc.done, Pc.cancelled, Pc.done] ∧
+      s.store.root.data = [("x", .int 0), ("y", .int 1)] ∧ hasX5m s.store = false ∧
+      hasX5m (serial memBackendUnscoped C20_leakProg C20_cancelInitMem [0, 2]) = true ∧
+      hasX5m (serial memBackendUnscoped C20_leakProg C20_cancelInitMem [2, 0]) = true) :=
+  ⟨⟨_, rfl, by rfl, by rfl, by rfl, by rfl, by rfl, by rfl⟩, ⟨_, rfl, by rfl, by rfl, by rfl, by rfl, by rfl, by rfl⟩⟩
+
+/-- the same schedule on the stores as they are: `set_state` has to queue behind the block (the
+extra action), and survives -/
+example : ∃ s, Sys.execAll sqlBackend C20_leakProg (Sys.init C20_cancelInit 3)
+      [.run 0, .run 1, .cancel 1, .run 1, .run 2, .run 0, .run 2] = some s ∧
+    s.allDoneOrCancelled = true ∧ s.store.row = some [("x", .int 5)] := ⟨_, rfl, by rfl, by rfl⟩
+
+example : ∃ s, Sys.execAll memBackend C20_leakProg (Sys.init C20_cancelInitMem 3)
+      [.run 0, .run 1, .cancel 1, .run 1, .run 2, .run 0, .run 2] = some s ∧
+    s.allDoneOrCancelled = true ∧ s.store.root.data = [("x", .int 5)] := ⟨_, rfl, by rfl, by rfl⟩
